@@ -328,7 +328,15 @@ fn clean_item(it: &mut syn::Item, derive_keep: &[String], subst: &BTreeMap<Strin
                 }
             }
         }
-        syn::Item::Const(c) => c.attrs.clear(),
+        syn::Item::Const(c) => {
+            c.attrs.clear();
+            // const items elide to 'static (rustc rule); the verus! macro wants it written out
+            if let syn::Type::Reference(r) = &mut *c.ty {
+                if r.lifetime.is_none() {
+                    r.lifetime = Some(syn::Lifetime::new("'static", proc_macro2::Span::call_site()));
+                }
+            }
+        }
         syn::Item::Static(c) => c.attrs.clear(),
         syn::Item::Type(c) => c.attrs.clear(),
         _ => {}
@@ -893,7 +901,9 @@ fn transform_fn(
 
     // fn.end markers, then fn.start + FN marker
     {
-        let tail_is_expr = matches!(block.stmts.last(), Some(Stmt::Expr(_, None)));
+        // a value-returning function keeps its tail expression last; a unit function gets the block appended
+        let returns_value = !matches!(sig.output, syn::ReturnType::Default);
+        let tail_is_expr = returns_value && matches!(block.stmts.last(), Some(Stmt::Expr(_, None)));
         let pos = if tail_is_expr { block.stmts.len() - 1 } else { block.stmts.len() };
         for (n, id) in fn_end.iter().enumerate() {
             block.stmts.insert(pos + n, marker_stmt(&format!("__VX_F{}_PROOF_{}__", j, id)));
